@@ -60,16 +60,23 @@ func replayFromFile(path string) int {
 		fmt.Println("no replay test was generated for this obligation:", rp.Note)
 		return 0
 	}
-	// re-run the stored test against the current tree
-	out, err := runOverlayTest(rp.ReplayPkgDir, rp.ReplayTest)
-	fmt.Println(out)
+	// Re-run against the current tree: the model's inputs are fed to the real
+	// function again and the failed clause is evaluated on what it returns now.
+	w, err := load()
 	if err != nil {
-		fmt.Println("replay run:", err)
+		fmt.Println("cannot load the current tree:", err)
+		return 2
 	}
-	if rp.Confirmed {
-		fmt.Println("the recorded run confirmed the violation on the real code")
+	ob := &Obligation{Name: rp.Obligation, Kind: rp.Kind, Func: rp.Func, Text: rp.Text, Verdict: rp.Verdict, Solver: rp.Solver, Model: rp.Model}
+	now := replayFile{Property: rp.Property, Obligation: rp.Obligation}
+	confirmed := tryReplay(w, ob, &now)
+	fmt.Println(now.ReplayOutput)
+	fmt.Println(now.Note)
+	if confirmed {
+		fmt.Println("REPRODUCED: the violation shows on the current tree with the recorded inputs")
 		return 1
 	}
+	fmt.Println("NOT REPRODUCED on the current tree with the recorded inputs")
 	return 0
 }
 
@@ -346,7 +353,7 @@ func runOverlayTest(pkgDir, src string) (string, error) {
 	ob, _ := json.Marshal(ov)
 	ovFile := filepath.Join(dir, "ov.json")
 	_ = os.WriteFile(ovFile, ob, 0o644)
-	cmd := exec.Command("go", "test", "-overlay", ovFile, "-vet=off", "-count=1", "-timeout", "60s", "-run", "^TestGovcReplay$", pkgDir)
+	cmd := exec.Command("go", "test", "-overlay", ovFile, "-vet=off", "-count=1", "-v", "-timeout", "60s", "-run", "^TestGovcReplay$", pkgDir)
 	cmd.Dir = repoDir()
 	cmd.Env = append(os.Environ(), "GOFLAGS=-mod=mod", "GOPROXY=off", "GOSUMDB=off", "GOTOOLCHAIN=local")
 	outb, err := cmd.CombinedOutput()
